@@ -172,9 +172,10 @@ type ARefTarget struct {
 	Nested Seq[*ARefTarget] `json:"nested"`
 }
 type ARefOrigin struct {
-	Addr Seq[string] `json:"addr"`
-	Rng  Seq[int]    `json:"rng"`
-	Cons Seq[string] `json:"cons"`
+	Addr  Seq[string] `json:"addr"`
+	Rng   Seq[int]    `json:"rng"`
+	Cons  Seq[string] `json:"cons"`
+	Scope string      `json:"scope"`
 }
 type ARefCase struct {
 	Ts Seq[*ARefTarget] `json:"ts"`
@@ -228,7 +229,7 @@ func buildRefTargets(src []byte, ts []*ARefTarget) reference.Targets {
 }
 
 // lookupCases: abstract target / origin sets from MC_Refs, stored in a path context as if they had been collected
-func lookupCases(tw *traceWriter, wt *watch, path string) int {
+func lookupCases(tw, tw2 *traceWriter, wt *watch, path string) int {
 	f, err := os.Open(path)
 	if err != nil {
 		fatal("open: %v", err)
@@ -256,11 +257,39 @@ func lookupCases(tw *traceWriter, wt *watch, path string) int {
 		for _, o := range c.Os {
 			oc := reference.OriginConstraints{}
 			for _, t := range o.Cons {
-				oc = append(oc, reference.OriginConstraint{OfScopeId: "s", OfType: refType(t)})
+				sc := o.Scope
+				if sc == "" {
+					sc = "s"
+				}
+				oc = append(oc, reference.OriginConstraint{OfScopeId: lang.ScopeId(sc), OfType: refType(t)})
 			}
 			pc.ReferenceOrigins = append(pc.ReferenceOrigins, reference.LocalOrigin{Addr: refAddr(o.Addr), Range: refRange(src, o.Rng), Constraints: oc})
 		}
 		n += lookupEnv(tw, wt, env, []string{"p1"}, false)
+		// exact go-to-definition per origin (TraceRefs compares with Refs!GoToDefP)
+		defs := [][][]interface{}{}
+		for _, o := range c.Os {
+			got := [][]interface{}{}
+			g := env.Run(wt, Q{Kind: "gotodef", Path: "p1", File: "f.tf", Pos: PosAt(src, o.Rng[0])})
+			if rts, ok := g.Value.(decoder.ReferenceTargets); ok {
+				seen := map[string]bool{}
+				for _, t := range rts {
+					def := []int{}
+					if t.DefRangePtr != nil {
+						def = []int{t.DefRangePtr.Start.Byte, t.DefRangePtr.End.Byte}
+					}
+					key := fmt.Sprint(t.Range.Start.Byte, t.Range.End.Byte, def)
+					if !seen[key] {
+						seen[key] = true
+						got = append(got, []interface{}{[]int{t.Range.Start.Byte, t.Range.End.Byte}, def})
+					}
+				}
+			}
+			defs = append(defs, got)
+		}
+		rawCase := map[string]interface{}{}
+		json.Unmarshal(sc.Bytes(), &rawCase)
+		tw2.Emit(Event{"ev": "RefCase", "case": ci, "ts": rawCase["ts"], "os": rawCase["os"], "defs": defs})
 	}
 	return n
 }
@@ -276,8 +305,10 @@ func cmdLookup(fs *flag.FlagSet) {
 	n := 0
 	if *cases != "" {
 		tw := newTraceWriter(*out + ".000.ndjson")
-		n = lookupCases(tw, wt, *cases)
+		tw2 := newTraceWriter(*out + "-refs.000.ndjson") // RefCase events: validated by TraceRefs
+		n = lookupCases(tw, tw2, wt, *cases)
 		tw.Close()
+		tw2.Close()
 		fmt.Printf("{\"events\":%d}\n", n)
 		return
 	}
